@@ -29,8 +29,10 @@ ASSUMPTIONS = [
     'against and the history oracle over the hit log; histories of events are sampled',
 ]
 
-MET = ['env:SIM_A==1', '--sim-flag', 'linux', 'posix', 'cpython', 'py3', 'module:os', 'env:SIM_A', 'env:SIM_B!=1', 'CPython', 'Linux']
-UNMET_A = ['env:SIM_NOT_SET', 'env:SIM_A==2', '--sim-absent', 'win32', 'module:sim_no_such_module']
+MET = ['env:SIM_A==1', '--sim-flag', 'linux', 'posix', 'cpython', 'py3', 'module:os', 'env:SIM_A', 'env:SIM_B!=1', 'CPython', 'Linux',
+       'module:json.decoder', 'module:xdoctest.utils']
+UNMET_A = ['env:SIM_NOT_SET', 'env:SIM_A==2', '--sim-absent', 'win32', 'module:sim_no_such_module', 'module:json.sim_no_such_sub',
+           'module:xdoctest.sim_nope']
 UNMET_B = ['env:SIM_A!=1', 'pypy', 'nt', 'env:SIM_OTHER==x', '--sim-absent-2']
 STMT_FORMS = ['assign', 'emit', 'print', 'expr', 'multiline', 'multicall', 'for', 'if', 'with', 'try', 'semi',
               'semiemit', 'callmod', 'strdirective', 'write', 'decoclass', 'decoasync', 'decodef2', 'blankprompt', 'comment']
